@@ -113,7 +113,20 @@ func funcName(fn *ssa.Function) string {
 	if o := fn.Origin(); o != nil {
 		fn = o
 	}
-	return fn.String()
+	s := fn.String()
+	// a function renamed since the baseline keeps its baseline name in keys and reports
+	root := fn
+	for root.Parent() != nil {
+		root = root.Parent()
+	}
+	if obj := root.Object(); obj != nil {
+		if old, ok := renamedObj[obj]; ok {
+			if i := strings.LastIndex(s, "."+root.Name()); i >= 0 {
+				s = s[:i] + "." + old + s[i+1+len(root.Name()):]
+			}
+		}
+	}
+	return s
 }
 
 // shortFuncName strips the module path prefix.
@@ -146,11 +159,12 @@ func isFunc(fn *ssa.Function, pkgPath, name string) bool {
 		if n, ok := types.Unalias(rt).(*types.Named); ok {
 			tn = n.Obj().Name()
 		}
-		full := "(" + ptr + tn + ")." + obj.Name()
-		alt := "(" + tn + ")." + obj.Name()
-		return name == full || name == alt || name == tn+"."+obj.Name()
+		on := canonName(obj)
+		full := "(" + ptr + tn + ")." + on
+		alt := "(" + tn + ")." + on
+		return name == full || name == alt || name == tn+"."+on
 	}
-	return obj.Name() == name
+	return canonName(obj) == name
 }
 
 // callIs reports whether the call statically resolves to pkgPath.name.
@@ -182,6 +196,10 @@ func methodCallNamed(c ssa.CallInstruction, method string) (recv ssa.Value, ok b
 	n := fn.Name()
 	if o := fn.Origin(); o != nil {
 		n = o.Name()
+		fn = o
+	}
+	if fn.Object() != nil {
+		n = canonName(fn.Object())
 	}
 	if n == method && len(cc.Args) > 0 {
 		return cc.Args[0], true
@@ -574,13 +592,13 @@ func fieldNameOf(v ssa.Value) (string, ssa.Value, bool) {
 		if st == nil {
 			return "", nil, false
 		}
-		return st.Field(x.Field).Name(), x.X, true
+		return canonName(st.Field(x.Field)), x.X, true
 	case *ssa.Field:
 		st, _ := x.X.Type().Underlying().(*types.Struct)
 		if st == nil {
 			return "", nil, false
 		}
-		return st.Field(x.Field).Name(), x.X, true
+		return canonName(st.Field(x.Field)), x.X, true
 	}
 	return "", nil, false
 }
@@ -743,4 +761,44 @@ func freeVarBinding(fv *ssa.FreeVar) ssa.Value {
 		return nil
 	}
 	return bound
+}
+
+// originValueIn is originValue that also looks through parameters of helper
+// functions of a function group: a helper's parameter is resolved to the
+// argument all its call sites within the group agree on.
+func originValueIn(v ssa.Value, group []*ssa.Function) ssa.Value {
+	for d := 0; d < 6; d++ {
+		v = originValue(v)
+		prm, ok := v.(*ssa.Parameter)
+		if !ok || prm.Parent() == nil {
+			return v
+		}
+		f := prm.Parent()
+		idx := -1
+		for i, q := range f.Params {
+			if q == prm {
+				idx = i
+			}
+		}
+		var arg ssa.Value
+		n := 0
+		for _, g := range group {
+			for _, c := range callsIn(g) {
+				if c.Common().StaticCallee() != f || c.Common().IsInvoke() || idx >= len(c.Common().Args) {
+					continue
+				}
+				a := originValue(c.Common().Args[idx])
+				if n > 0 && a != arg {
+					return v
+				}
+				arg = a
+				n++
+			}
+		}
+		if n == 0 {
+			return v
+		}
+		v = arg
+	}
+	return v
 }
